@@ -28,22 +28,23 @@ static std::string mutate(const std::string &line, hz::Rng &r, std::string &what
   return s;
 }
 
-struct FzCase { std::string text; int combo = 11, mode = 0, chunk = 16; bool internal = false; int n = 300; };
+struct FzCase { std::string text; int combo = 11, mode = 0, chunk = 16; bool internal = false; int n = 300; int start = 0; };
 static std::string tohex(const std::string &s) { std::string o; char b[4]; for (unsigned char c : s) { snprintf(b, sizeof b, "%02x", c); o += b; } return o; }
 static std::string fromhex(const std::string &h) { std::string o; for (size_t i = 0; i + 1 < h.size(); i += 2) o += (char)strtol(h.substr(i, 2).c_str(), nullptr, 16); return o; }
-static std::string serfz(const FzCase &c) { return "FZ|" + std::to_string(c.combo) + "|" + std::to_string(c.mode) + "|" + std::to_string(c.chunk) + "|" + (c.internal ? "1" : "0") + "|" + std::to_string(c.n) + "|" + tohex(c.text); }
+static std::string serfz(const FzCase &c) { return "FZ|" + std::to_string(c.combo) + "|" + std::to_string(c.mode) + "|" + std::to_string(c.chunk) + "|" + (c.internal ? "1" : "0") + "|" + std::to_string(c.n) + "|" + tohex(c.text) + "|" + std::to_string(c.start); }
 
 static bool run_fz(const FzCase &c, std::string &why) {
   std::vector<uint8_t> ext(c.n, 0x5a); ext.shrink_to_fit();
   static uint8_t dummy; assemblyline_t a = asm_create_instance(c.internal ? nullptr : (c.n ? ext.data() : &dummy), c.n);
   if (!a) { why = "create failed"; return false; }
   al::apply_opts(a, combo_opts(c.combo)); if (c.mode == 1) asm_set_chunk_size(a, c.chunk);
+  asm_set_offset(a, c.start);
   int rc, cnt = 0;
   if (c.mode == 2) { std::vector<char> w(c.text.begin(), c.text.end()); w.push_back(0); rc = asm_assemble_string_counting_chunks(a, w.data(), c.chunk, &cnt); }
   else rc = asm_assemble_str(a, c.text.c_str());
   int off = asm_get_offset(a); bool ok = true;
   if (rc != 0 && rc != 1) { ok = false; why = "return value " + std::to_string(rc); }
-  if (ok && rc == 0 && (off < 0 || (!c.internal && off > c.n))) { ok = false; why = "offset " + std::to_string(off) + " outside the buffer"; }
+  if (ok && rc == 0 && (off < c.start || (!c.internal && off > c.n))) { ok = false; why = "offset " + std::to_string(off) + " outside the buffer"; }
   asm_destroy_instance(a);
   return ok;
 }
@@ -55,7 +56,8 @@ void prop_c09_grammar(hz::Ctx &ctx) {
   static const int NS[] = {0, 19, 20, 21, 64, 300, 300, 5000};
   for (long long i = 0; i < total; i++) {
     std::string what; const std::string &base = P.lines[r.below(P.lines.size())];
-    FzCase c; c.text = mutate(base, r, what); c.combo = (int)r.below(12); c.mode = (int)r.below(3); static const int CH[] = {0, 1, 2, 3, 8, 16, 17, 4096}; c.chunk = CH[r.below(8)]; c.internal = r.below(4) == 0; c.n = NS[r.below(8)];
+    FzCase c; if (r.below(5) == 0) { c.text = base; if (r.coin()) c.text += "\n" + P.lines[r.below(P.lines.size())]; what = "unmutated "; } else c.text = mutate(base, r, what); c.combo = (int)r.below(12); c.mode = (int)r.below(3); static const int CH[] = {0, 1, 2, 3, 8, 16, 17, 4096}; c.chunk = CH[r.below(8)]; c.internal = r.below(4) == 0; c.n = NS[r.below(8)];
+    { int lim = c.internal ? 6000 : c.n; static const int BACK[] = {20, 21, 22, 23, 24, 25, 28, 32, 19, 0}; int bk = BACK[r.below(10)]; c.start = r.below(3) == 0 ? 0 : (lim >= bk ? lim - bk : 0); if (r.below(8) == 0) c.start = (int)r.below(lim + 1); }
     if (!ctx.take()) continue;
     std::string id = serfz(c); if (!ctx.begin(id, hz::jesc(c.text).substr(0, 300))) continue;
     ctx.cls("part:grammar-mutation"); { size_t p = 0; while (p < what.size()) { size_t e = what.find(' ', p); ctx.cls("mut:" + what.substr(p, e - p)); p = e + 1; } }
@@ -69,7 +71,7 @@ void prop_c09_grammar(hz::Ctx &ctx) {
 }
 
 int replay_fz(const std::string &caseid) {
-  auto f = split(caseid, '|'); if (f.size() != 7 || f[0] != "FZ") return 2;
-  FzCase c; c.combo = atoi(f[1].c_str()); c.mode = atoi(f[2].c_str()); c.chunk = atoi(f[3].c_str()); c.internal = f[4] == "1"; c.n = atoi(f[5].c_str()); c.text = fromhex(f[6]);
+  auto f = split(caseid, '|'); if (f.size() < 7 || f[0] != "FZ") return 2;
+  FzCase c; c.combo = atoi(f[1].c_str()); c.mode = atoi(f[2].c_str()); c.chunk = atoi(f[3].c_str()); c.internal = f[4] == "1"; c.n = atoi(f[5].c_str()); c.text = fromhex(f[6]); if (f.size() > 7) c.start = atoi(f[7].c_str());
   std::string why; bool ok = run_fz(c, why); printf("text: %s\n", hz::jesc(c.text).c_str()); if (ok) { printf("OK\n"); return 0; } printf("FAIL %s\n", why.c_str()); return 1;
 }
